@@ -305,11 +305,12 @@ func (w *Workspace) refreshIncludeTreeLocked() {
 		return
 	}
 
+	// Files are removed only once the reachable set is complete: a file that
+	// stays reachable through a newly added file must keep its current content.
 	for {
 		reachable := w.computeReachableLocked()
-		w.removeUnreachableLocked(reachable)
-		added := w.addMissingReachableLocked(reachable)
-		if !added {
+		if !w.addMissingReachableLocked(reachable) {
+			w.removeUnreachableLocked(reachable)
 			return
 		}
 	}
